@@ -10,6 +10,7 @@ structure St where
   tries : List (Nat × Nat × Trie) := []        -- id, parent id, trie
   saved : List (Nat × Bytes × Node × Bool) := []   -- version, root, tree, superseded? of every saved round (oldest first)
   kind0 : String := "level"                    -- store kind of the block trie: level | mem | pndb
+  snaps : List (Nat × Trie) := []              -- op `snap`: the trie value at that moment (a change set taken from it)
 
 def maxPrune : Nat := 1000
 
@@ -192,9 +193,28 @@ def tstep (s : St) (op : TOp) : St × String :=
   | .badOp, _ => (s, "bad-op")
   | .panic, _ => (s, "panic")
 
+/-- trailing `base`: the donor of a MergeDB is built off the saved state the round continues from; `-` = no pairs -/
+def donorBase (s : St) (rest : List String) : List String × Node :=
+  let (rest, base) := if rest.getLast? = some "base" then (rest.dropLast, (lastSaved s).2) else (rest, Node.empty)
+  (rest.filter (· ≠ "-"), base)
+
 def step (s : St) (w : List String) : St × String :=
   match w with
   | ["light"] => (s, "ok")
+  | ["snap", id] =>
+    match findTrie s id.toNat! with
+    | some (_, t) =>
+      if id.toNat! = 0 then (s, "bad-op")
+      else ({ s with snaps := (id.toNat!, t) :: s.snaps.filter (fun e => e.1 ≠ id.toNat!) }, "ok " ++ rootStr t.root)
+    | none => (s, "bad-op")
+  | ["mergesnap", id] =>
+    -- MergeChanges of the change set taken by `snap`: the merge of the trie VALUE of that moment (values do not change
+    -- after the fact); the child itself stays as it is now
+    match findTrie s id.toNat!, (s.snaps.find? (fun e => e.1 = id.toNat!)) with
+    | some (_, cur), some (_, old) =>
+      let (s1, out) := tstep (setTrie s id.toNat! old) (.merge id.toNat! true)
+      (setTrie s1 id.toNat! cur, out)
+    | _, _ => (s, "bad-op")
   | "round" :: v :: rest =>
     let v := v.toNat!
     let kind := match rest with | [k] => k | _ => "level"
@@ -204,20 +224,22 @@ def step (s : St) (w : List String) : St × String :=
     let t0 := Trie.open r tree v
     let t0 := if kind = "pndb" then { t0 with db := { t0.db with current := s.ps.nodes } } else t0
     let saved2 := if kind = "pndb" then saved1.map (fun e => (e.1, e.2.1, e.2.2.1, true)) else saved1
-    ({ s1 with tries := [(0, 0, t0)], kind0 := kind, saved := saved2 }, "ok " ++ rootStr r)
+    ({ s1 with tries := [(0, 0, t0)], kind0 := kind, saved := saved2, snaps := [] }, "ok " ++ rootStr r)
   | ["ver", id, n] => tstep s (.ver id.toNat! n.toNat!)
   | "syncinto" :: id :: w :: rest =>
+    let (rest, base) := donorBase s rest
     match findTrie s id.toNat!, (match rest with | [x] => parseKVs x | _ => some []) with
     | some (_, t), some kvs =>
-      let donor := kvs.foldl (fun d (p, b) => Verif.Mpt.insert w.toNat! b d p) Node.empty
+      let donor := kvs.foldl (fun d (p, b) => Verif.Mpt.insert w.toNat! b d p) base
       let t1 := t.applyEvents sha3 ((refs donor []).map (fun r => Event.put none r))
       let t2 := { t1 with tree := donor, root := root sha3 donor }
       (syncP (setTrie s id.toNat! t2), "ok " ++ rootStr t2.root)
     | _, _ => (s, "bad-op")
   | "syncfrom" :: w :: rest =>
+    let (rest, base) := donorBase s rest
     match findTrie s 0, (match rest with | [x] => parseKVs x | _ => some []) with
     | some (_, t), some kvs =>
-      let donor := kvs.foldl (fun d (p, b) => Verif.Mpt.insert w.toNat! b d p) Node.empty
+      let donor := kvs.foldl (fun d (p, b) => Verif.Mpt.insert w.toNat! b d p) base
       let t1 := t.applyEvents sha3 ((refs donor []).map (fun r => Event.put none r))
       let t2 := { t1 with tree := donor, root := root sha3 donor }
       (syncP (setTrie s 0 t2), "ok " ++ rootStr t2.root)
